@@ -76,6 +76,9 @@ type Monitor interface {
 
 // Scenario is a closed system: configuration, peers and their scripts.
 type Scenario struct {
+	// RevSubs: the subscriber fan-out loops of a cached resource run in
+	// reverse registration order (default: registration order).
+	RevSubs bool
 	Name        string
 	Props       []string
 	Cfg         func(c *server.Config)
@@ -88,6 +91,10 @@ type Scenario struct {
 	Monitors    func(w *World) []Monitor
 	MaxPoints   int
 	Bound       map[string]int // tier -> deviation bound (-1 = unbounded)
+	// Slow marks requests that a slow service answers last: in the default
+	// schedule their answers come after every scripted action (so that the
+	// "still loading" windows are reached without deviations).
+	Slow func(r *Req) bool
 	// LazyConns changes the default schedule: connection workers run only
 	// when nothing else (cache workers, answers, scripted actions) is
 	// enabled, i.e. clients' queues are served last.
@@ -210,6 +217,8 @@ func newWorld(sc *Scenario, free bool) *World {
 	}
 	w := &World{Sc: sc, cids: map[string]string{}, resGen: map[string]int{}, resName: map[interface{}]string{}, Data: map[string]interface{}{}}
 	current = w
+	rescache.VerifResetOrder()
+	rescache.VerifSubsReverse = sc.RevSubs
 	w.S = NewSched()
 	if free {
 		w.S.Detach()
@@ -565,8 +574,10 @@ func (w *World) Enabled() []Action {
 	// 2. answers
 	pend := w.MQ.Pending()
 	var alts []Action
+	var slow []Action
 	for _, r := range pend {
 		r := r
+		isSlow := w.Sc.Slow != nil && w.Sc.Slow(r)
 		for i, o := range w.outcomes(r) {
 			o := o
 			a := Action{"ans:" + r.Name + ":" + o.Name, func() {
@@ -576,7 +587,9 @@ func (w *World) Enabled() []Action {
 				}
 				w.MQ.Answer(r, o.Name, d, o.Err)
 			}}
-			if i == 0 {
+			if isSlow {
+				slow = append(slow, a)
+			} else if i == 0 {
 				out = append(out, a)
 			} else {
 				alts = append(alts, a)
@@ -629,6 +642,7 @@ func (w *World) Enabled() []Action {
 		out = append(out, e.a)
 	}
 	out = append(out, lazy...)
+	out = append(out, slow...)
 	// 5. timers
 	if !w.Sc.NoEvict && w.TQ != nil {
 		if el := w.TQ.VerifElems(); len(el) > 0 {
